@@ -111,6 +111,7 @@ type State struct {
 	sumDone       map[string]bool // sumInt instances whose defining equation is already assumed
 	mergeScalars  bool  // option merge-scalar-branches: pure scalar triangles/diamonds become ite instead of two paths
 	rootAllArgs   []Value // closure roots: captured values followed by parameters
+	fullLog       []LogEntry // inside old(): the whole current log (s.log is truncated to the old length)
 	storeGuard    *Term // set while a defaulting triangle is executed speculatively: stores become guarded
 	ghostlog      map[string]bool
 	ghostlogContract map[string]bool // recorded callees whose own contract describes the results (ghostlog f+contract)
